@@ -252,6 +252,8 @@ class Sym:
         for k, p in atoms.items():
             d[k] = d.get(k, 0) + p
             Sym.DENOMS[k] = Sym.ATOMS[k]
+        if self.is_zero():
+            return Sym(Fraction(0))     # 0 / (non-zero atoms): stays the number zero (sin(pi*0*x/L) must be sin(0))
         n = Sym._mul(self.n, Fraction(1) / coeff)
         if o.d:
             n = Sym._mul(n, Sym._mono(o.d))
